@@ -116,7 +116,7 @@ OPTION_SPACE = {
     'apply_local_op': {'i': ['0', 'last', 'inner', 'negative', 'beyond-cell'], 'op': ['name', 'name-JW', 'Array:1', 'Array:2', 'Array:3', 'Array:legs-permuted'],
                        'unitary': ['default', 'None', 'True', 'False', 'False-on-unitary'], 'renormalize': ['default', 'False', 'True'],
                        'cutoff': ['default', '1e-10', '1e-15'], 'understood_infinite': ['default', 'True', 'False'], '<bc>': [BCF, BCI, BCS]},
-    'apply_product_op': {'ops': ['list:L', 'list:divisor', 'single'], 'unitary': ['default', 'None', 'True', 'False'],
+    'apply_product_op': {'ops': ['list:L', 'list:divisor', 'single:name', '?single:Array'], 'unitary': ['default', 'None', 'True', 'False'],
                          'renormalize': ['default', 'False', 'True'], '<bc>': [BCF, BCI, BCS]},
     'apply_local_term': {'term': ['len1', 'len2', 'len3+', 'same-site', 'odd-JW', 'even-JW'], 'autoJW': ['default', 'True', 'False'],
                          'i_offset': ['default', '0', 'positive', 'negative'], 'canonicalize': ['default', 'True', 'False'],
@@ -141,7 +141,8 @@ OPTION_SPACE = {
     'spatial_inversion': {'<bc>': [BCF, BCI]},
     'enlarge_mps_unit_cell': {'factor': ['default', '2', '3'], '<bc>': [BCI]},
     'roll_mps_unit_cell': {'shift': ['default', '0', '1', '-1', 'L', 'other'], '<bc>': [BCI]},
-    'extract_segment': {'first': ['0', 'inner', 'negative'], 'last': ['L-1', 'inner', 'beyond-cell'], '<bc>': [BCF, BCI, BCS]},
+    'extract_segment': {'first': ['0', 'inner', 'negative'], 'last': ['L-1', 'inner', 'beyond-cell'],
+                        '<recorded boundaries of a segment>': ['none', 'kept-left', 'kept-right', 'dropped'], '<bc>': [BCF, BCI, BCS]},
     'extract_enlarged_segment': {'psi_left': ['MPS'], 'psi_right': ['MPS'], 'first': ['<int>'], 'last': ['<int>'], 'add_unitcells': ['default', 'int', 'pair'],
                                  'new_first_last': ['default', 'pair', 'unchanged', 'one-side', 'both-sides', 'whole-finite-chain'], 'cutoff': ['default', '1e-12'], '<bc>': [BCS]},
     'gauge_total_charge': {'qtotal': ['default', 'None', 'charge', 'list'], 'vL_leg': ['default', 'None', 'LegCharge'], 'vR_leg': ['default', 'None', 'LegCharge'],
@@ -193,7 +194,7 @@ def option_coverage(refl, optlog):
                 else:
                     got = reached.get(pn, {})
                     row[pn] = dict(sorted(got.items(), key=lambda kv: -kv[1])[:14])
-                    lack = [w for w in want if not value_reached(w, got)]
+                    lack = [w for w in want if not w.startswith('?') and not value_reached(w, got)]     # ('?': drawn, not required)
                     if lack:
                         missing.append('%s: parameter %s: value classes %s not reached (reached: %s)' % (name, pn, lack, sorted(got)[:12]))
             for pn in space:
